@@ -38,6 +38,19 @@ def add(ctx, res, tag):
                                       'what': f'{tag}: {f["kind"]} family {fi} over {f["spec"][0]["ids"]}: {r["field"]}{tuple(r["args"])} has the same node hash digest in the '
                                               f'variants "{seen[d][1]}" and "{v["variant"]}" but different values'})
                     seen.setdefault(d, (r['value'], v['variant']))
+        for si, sc in enumerate(json.load(open(out)).get('shared_folders', []) if tag == 'C05' else []):
+            for o in sc['orders']:
+                for r in o['rows']:
+                    k += 1
+                    if r.get('value') != r['reference']:
+                        f11 = sc['function'] == 'builtins.tuple'
+                        extra.append({'signature': 'F11:column-shard-keyed-like-tuple-application' if f11 else 'oracle:stale-entry-served-across-pipelines',
+                                      'case': {'ids': sc['ids'], 'shard': sc['shard'], 'function': sc['function'], 'order': o['order'], 'field': r['field'], 'key': r['key']},
+                                      'observed': r.get('value', r.get('exc')), 'expected': r['reference'],
+                                      'what': f'{tag}: Source(ids={sc["ids"]}, a) >> CacheColumns("a", shard_size={sc["shard"]}) and Source >> Transform(b={sc["function"]}(a)) >> '
+                                              f'CacheToDisk("b") over the same folders, {o["order"]}: {r["field"]}({r["key"]!r}) gives '
+                                              f'{json.dumps(r.get("value", r.get("exc")))[:100]}, without caches {json.dumps(r["reference"])[:100]}'})
+                        break
     per, outv = {}, []
     for x in extra:
         per[x['signature']] = per.get(x['signature'], 0) + 1
@@ -47,5 +60,6 @@ def add(ctx, res, tag):
     res['oracle_checks'] = res.get('oracle_checks', 0) + k
     res['evaluations'] = res.get('evaluations', 0) + k
     res['rule'] = res.get('rule', '') + ('; plus families of dataset pipelines differing in what GroupBy groups by, a Filter predicate or a hash-by-value function below it, '
-                                        'a Merge routing, a Split function: equal digests of node hashes (ids and every field on every key) must mean equal values')
+                                        'a Merge routing, a Split function: equal digests of node hashes (ids and every field on every key) must mean equal values'
+                                        + ('; a column cache and a disk cache of a dependent field over the same folders, filled in both orders' if tag == 'C05' else ''))
     return res
